@@ -90,6 +90,9 @@ func (g *G) AttrValue(f AttrField) any {
 		for i := 0; i <= g.Int(2); i++ {
 			l = append(l, g.Pick(strPool[:7]))
 		}
+		if len(l) >= 2 && g.Chance(0.25) {
+			l = append(l, l[0]) // a repeated entry, not adjacent to its twin
+		}
 		return l
 	case "enums":
 		l := []any{}
@@ -117,7 +120,7 @@ func (g *G) AttrValue(f AttrField) any {
 	case "persons":
 		l := []any{}
 		for i := 0; i <= g.Int(2); i++ {
-			l = append(l, g.Person(1))
+			l = append(l, g.Person(g.Pick2([]int{1, 1, 2, 3})))
 		}
 		return l
 	case "refs":
